@@ -53,6 +53,8 @@ structure VarOut where
   nillable : Bool
   isSlice : Bool
   variadic : Bool
+  /-- the identifiers of enclosing scopes the type string refers to (`Go.typeRefs`) -/
+  refs : List String := []
   deriving Repr, Inhabited, DecidableEq
 
 structure MethodOut where
@@ -113,7 +115,7 @@ def addVar (st : VarState) (v : VarIn) (variadic : Bool) : VarState :=
     let ts := typeString (qualifierOf imps) rt
     let nm := scope1.suggest (varName v.name v.type)
     { reg := reg', scope := scope1,
-      vars := st.vars ++ [⟨nm, ts, nillable rt, isSlice rt, variadic⟩] }
+      vars := st.vars ++ [⟨nm, ts, nillable rt, isSlice rt, variadic, typeRefs (qualifierOf imps) rt⟩] }
   | none =>
     let (reg', imps) := addImports st.reg (pkgsOf v.type)
     let scope1 := imps.foldl (fun s i => s.addName i.2) st.scope
@@ -121,7 +123,7 @@ def addVar (st : VarState) (v : VarIn) (variadic : Bool) : VarState :=
     let scope2 := scope1.addName ts
     let nm := scope2.suggest (varName v.name v.type)
     { reg := reg', scope := scope2,
-      vars := st.vars ++ [⟨nm, ts, nillable v.type, isSlice v.type, variadic⟩] }
+      vars := st.vars ++ [⟨nm, ts, nillable v.type, isSlice v.type, variadic, typeRefs (qualifierOf imps) v.type⟩] }
 
 /-- `ResolveVariableNameCollisions`: in order, each variable takes the first free name and registers it -/
 def resolveCollisions (scope : Scope) : List VarOut → Scope × List VarOut
